@@ -203,6 +203,7 @@ func SyncNamespaces(remote models.Client, local *models.LocalClient, key string)
 // Manager contains namespace manager and user manager
 type Manager struct {
 	reloadPrepared sync2.AtomicBool
+	preparedName   string // namespace staged by the pending prepare (valid while reloadPrepared is set)
 	switchIndex    util.BoolIndex
 	namespaces     [2]*NamespaceManager
 	users          [2]*UserManager
@@ -289,6 +290,7 @@ func (m *Manager) ReloadNamespacePrepare(namespaceConfig *models.Namespace) erro
 	if _, ok := m.statistics.SQLResponsePercentile[name]; !ok {
 		m.statistics.SQLResponsePercentile[name] = NewSQLResponse(name)
 	}
+	m.preparedName = name
 	m.reloadPrepared.Set(true)
 
 	return nil
@@ -296,6 +298,13 @@ func (m *Manager) ReloadNamespacePrepare(namespaceConfig *models.Namespace) erro
 
 // ReloadNamespaceCommit commit config
 func (m *Manager) ReloadNamespaceCommit(name string) error {
+	// only the namespace that was prepared last may be committed: the staged
+	// generation holds the prepared configuration of that namespace only
+	if m.reloadPrepared.Get() && m.preparedName != name {
+		err := errors.ErrNamespaceNotPrepared
+		log.Warn("commit namespace error, namespace: %s, prepared namespace: %s, err: %v", name, m.preparedName, err)
+		return err
+	}
 	if !m.reloadPrepared.CompareAndSwap(true, false) {
 		err := errors.ErrNamespaceNotPrepared
 		log.Warn("commit namespace error, namespace: %s, err: %v", name, err)
@@ -342,6 +351,9 @@ func (m *Manager) DeleteNamespace(name string) error {
 
 	// switch namespace manager
 	m.switchIndex.Set(!index)
+	// the staging generation of a pending prepare has just been overwritten
+	// and activated: a later commit must not switch back to the old generation
+	m.reloadPrepared.Set(false)
 
 	// delay recycle resources of current
 	go currentNamespace.Close(true)
